@@ -151,6 +151,14 @@ type MonitoredItem struct {
 	Mode ua.MonitoringMode
 }
 
+// ownedBy reports whether the item belongs to a subscription of the given session.
+func (m *MonitoredItem) ownedBy(sess *session) bool {
+	if m.Sub == nil || m.Sub.Session == nil || sess == nil {
+		return false
+	}
+	return m.Sub.Session.AuthTokenID.String() == sess.AuthTokenID.String()
+}
+
 // https://reference.opcfoundation.org/Core/Part4/v105/docs/5.12.2
 func (s *MonitoredItemService) CreateMonitoredItems(sc *uasc.SecureChannel, r ua.Request, reqID uint32) (ua.Response, error) {
 	if s.SubService.srv.cfg.logger != nil {
@@ -277,17 +285,20 @@ func (s *MonitoredItemService) SetMonitoringMode(sc *uasc.SecureChannel, r ua.Re
 	results := make([]ua.StatusCode, len(req.MonitoredItemIDs))
 
 	sess := s.SubService.srv.Session(req.RequestHeader)
+	if sess == nil {
+		return nil, ua.StatusBadSessionIDInvalid
+	}
 
 	for i := range req.MonitoredItemIDs {
 		id := req.MonitoredItemIDs[i]
 		item, ok := s.Items[id]
-
-		if item.Sub.Session.AuthTokenID.String() != sess.AuthTokenID.String() {
-			results[i] = ua.StatusBadSessionIDInvalid
+		if !ok || item == nil {
+			results[i] = ua.StatusBadMonitoredItemIDInvalid
+			continue
 		}
 
-		if !ok {
-			results[i] = ua.StatusBadMonitoredItemIDInvalid
+		if !item.ownedBy(sess) {
+			results[i] = ua.StatusBadSessionIDInvalid
 			continue
 		}
 		item.Mode = req.MonitoringMode
@@ -337,17 +348,22 @@ func (s *MonitoredItemService) DeleteMonitoredItems(sc *uasc.SecureChannel, r ua
 	defer s.Mu.Unlock()
 
 	sess := s.SubService.srv.Session(req.RequestHeader)
+	if sess == nil {
+		return nil, ua.StatusBadSessionIDInvalid
+	}
 
 	results := make([]ua.StatusCode, len(req.MonitoredItemIDs))
 	for i := range req.MonitoredItemIDs {
 		id := req.MonitoredItemIDs[i]
 		item, ok := s.Items[id]
-		if !ok {
+		if !ok || item == nil {
 			results[i] = ua.StatusBadMonitoredItemIDInvalid
+			continue
 		}
 
-		if item.Sub.Session.AuthTokenID.String() != sess.AuthTokenID.String() {
+		if !item.ownedBy(sess) {
 			results[i] = ua.StatusBadSessionIDInvalid
+			continue
 		}
 
 		// this function gets the lock so we need to do it in the background so it can happen after our lock is released.
